@@ -161,7 +161,7 @@ def check_near(case):
     return None
 
 
-def gen_case(rng, kind):
+def gen_case(rng, kind, touch_far=False):
     shape = rng.sample([8, 10, 12, 15, 20, 24, 30], 3)
     H, W, D = shape
     if kind == 'safe':
@@ -172,6 +172,9 @@ def gen_case(rng, kind):
         return case
     x1, y1, z1 = rng.randint(0, W - 3), rng.randint(0, H - 3), rng.randint(0, D - 3)
     ref = [x1, y1, z1, rng.randint(x1 + 2, W), rng.randint(y1 + 2, H), rng.randint(z1 + 2, D)]
+    if touch_far:
+        # a reference box that reaches the far faces of the volume: a shifted window passes them and is clamped
+        ref[3:] = [W, H, D]
     inside = lambda: (rng.uniform(ref[0], ref[3] - 1.0), rng.uniform(ref[1], ref[4] - 1.0), rng.uniform(ref[2], ref[5] - 1.0))
     boxes = []
     for i in range(rng.randint(1, 2)):
@@ -179,6 +182,8 @@ def gen_case(rng, kind):
         boxes.append((a[0], a[1], a[2], min(a[0] + rng.uniform(0.5, 4), W), min(a[1] + rng.uniform(0.5, 4), H), min(a[2] + rng.uniform(0.5, 4), D), 'b%d' % i))
     # the whole documented range [0, 1]: from 0.5 on the two faces of an axis can meet or cross
     shift = rng.choice([0.3, 0.1, 0, [0.1, 0.5, 0.3], [0.5, 0.0, 0.25], [0.0, 0.2, 0.6], 0.5, 1, [1.0, 0.75, 0.5], [0.9, 1.0, 1.0]])
+    if touch_far:
+        shift = rng.choice([0.3, 0.5, [0.4, 0.5, 0.3]])
     return {'kind': kind, 'shape': shape, 'seed': R.pick_seed(rng), 'ref': ref, 'boxes': boxes,
             'kps': [inside() for _ in range(3)], 'shift': shift}
 
